@@ -398,9 +398,10 @@ class EDT:
         name = strip_generics(callee_name(t) or "")
         gname = strip_generics(t["callee"]["fn"]) if t.get("callee") else ""
         args = [self.eval_op(env, mem, a) for a in t["args"]]
+        self._cur_env, self._cur_mem = env, mem
         dest = t["dest"]
         val = UNKNOWN
-        model = self.models.get(name) or self.models.get(gname)
+        model = self.models.get(name) or self.models.get(gname) or BUILTIN_MODELS.get(name)
         if model is not None:
             val = model(self, args, t)
         elif self.follow_try and (name.endswith("Try>::branch") or gname.endswith("Try::branch")):
@@ -431,6 +432,29 @@ class EDT:
         else:
             mem[fmt_place(None, dest)] = val
         return t.get("t")
+
+
+class _IsVariant:
+    def __init__(self, names):
+        self.names = names
+
+    def __call__(self, edt, args, t):
+        if not args:
+            return UNKNOWN
+        a = args[0]
+        if a[0] == "ref":
+            a = edt.read_place(edt._cur_env, edt._cur_mem, a[1])
+        if a[0] == "agg" and a[4] is not None:
+            return C(1 if a[4] in self.names else 0)
+        return UNKNOWN
+
+
+BUILTIN_MODELS = {
+    "core::option::Option::is_none": _IsVariant(("None",)),
+    "core::option::Option::is_some": _IsVariant(("Some",)),
+    "core::result::Result::is_ok": _IsVariant(("Ok",)),
+    "core::result::Result::is_err": _IsVariant(("Err",)),
+}
 
 
 def _short(v):
